@@ -12,7 +12,9 @@ import FlexModel.Geo.LT
 import FlexModel.Geo.LTSpec
 import FlexModel.Geo.LTLemmas
 import FlexModel.Geo.RecvPath
+import FlexModel.Geo.LTOrig
 import Generated.Mib
+import Generated.LTSrc
 
 namespace Props.C20
 open FlexModel.Geo
@@ -248,5 +250,102 @@ example : LTSpec.AdmissibleRemaining 156 1 ∧ ¬ LTSpec.AdmissibleRemaining 156
 example : FlexModel.Geo.Recv.byteAt ([0x11, 0, 5, 2] ++ [0x20, 0x50, 0, 0x80, 0, 0, 1, 0]) 0 % 16 = 1 ∧
     LTSpec.MustDiscard (FlexModel.Geo.Recv.byteAt ([0x11, 0, 5, 2] ++ [0x20, 0x50, 0, 0x80, 0, 0, 1, 0]) 3)
       (FlexModel.Geo.Recv.byteAt ([0x11, 0, 5, 2] ++ [0x20, 0x50, 0, 0x80, 0, 0, 1, 0]) 10) := by decide
+
+/-! ## 9. Round 5: the basic header of SECURED originations, and several originating threads
+
+`originate` (`Geo/LTOrig.lean`) models the assembly: one basic header per source operation, built from the RESOLVED hop
+limit; the security branch (SHB, GBC, GAC under itsGnSecurity = ENABLED) changes NH only.  Tie: correspondence on the
+packets of a security-enabled real Router (real SignService; MHL read from the signed payload by an independent parse)
+for every requested hop limit 0..255 x MIB defaults x lifetimes, and the facts of `Generated/LTSrc.lean`. -/
+
+/-- **secured or not, originated packets carry RHL (basic header, in the clear) = MHL (common header, inside the
+envelope when secured) = the Spec's hop budget**: 1 for SHB/beacon, the requested limit when above 1 else
+itsGnDefaultHopLimit for GBC/GAC/GUC, itsGnDefaultHopLimit for LS — for every request, default and configuration -/
+theorem originate_hops_meet_spec (security capped : Bool) (t : Transport) (req dflt : Nat) (reqMs : Option Nat)
+    (dfltS : Nat) :
+    ((originate security capped t req dflt reqMs dfltS).hdr.rhl, (originate security capped t req dflt reqMs dfltS).mhl)
+      = LTSpec.hops t (LTSpec.requestedHops req) dflt := by
+  rw [← src_hops_meet_spec]
+  unfold originate
+  split <;> rfl
+
+/-- **secured or not, the LT octet in the clear is the one the property demands** (outside C20-KF1 for the code as it is) -/
+theorem originate_lifetime_meets_spec (security capped : Bool) (t : Transport) (req dflt : Nat) (reqMs : Option Nat)
+    (dfltS : Nat) (h : capped = false ∨ LTSpec.lifetimeMs reqMs dfltS < 1000000) :
+    LTSpec.IsLifetimeOctet (LTSpec.lifetimeMs reqMs dfltS)
+      (originate security capped t req dflt reqMs dfltS).hdr.lt.encode := by
+  have key := src_lifetime_meets_spec capped reqMs dfltS h
+  unfold originate
+  split <;> exact key
+
+/-- and never exceeds the request, KF1 band included -/
+theorem originate_lifetime_never_exceeds (security capped : Bool) (t : Transport) (req dflt : Nat) (reqMs : Option Nat)
+    (dfltS : Nat) :
+    LTSpec.octetMillis (originate security capped t req dflt reqMs dfltS).hdr.lt.encode ≤ LTSpec.lifetimeMs reqMs dfltS := by
+  have key := src_lifetime_never_exceeds capped reqMs dfltS
+  unfold originate
+  split <;> exact key
+
+/-- the security configuration changes NH (and where the common header travels) and NOTHING else of the hop / lifetime
+budget: same LT, same RHL, same MHL as the unsecured packet of the same request -/
+theorem security_changes_nh_only (capped : Bool) (t : Transport) (req dflt : Nat) (reqMs : Option Nat) (dfltS : Nat) :
+    let s := originate true capped t req dflt reqMs dfltS
+    let u := originate false capped t req dflt reqMs dfltS
+    s.hdr.lt = u.hdr.lt ∧ s.hdr.rhl = u.hdr.rhl ∧ s.mhl = u.mhl ∧ u.hdr.nh = 1 ∧
+      s.hdr.nh = (if hasSecBranch t then 2 else 1) ∧ s.secured = hasSecBranch t := by
+  cases t <;> simp [originate, hasSecBranch, BasicHdr.setNh]
+
+/-- **several originating threads**: in EVERY serialisation of the constructor calls of any number of threads (any
+history `reqs`, any length) the lifetime written for the i-th call does not exceed the i-th call's OWN request (resp.
+the MIB default) — whatever was requested before it or concurrently -/
+theorem every_schedule_honours_each_request (capped : Bool) (dfltS : Nat) (reqs : List (Option Nat)) (i : Nat)
+    (h : i < reqs.length) :
+    LTSpec.octetMillis ((emitAll capped dfltS reqs)[i]'(by simpa [emitAll] using h)).encode
+      ≤ LTSpec.lifetimeMs reqs[i] dfltS := by
+  simp only [emitAll, List.getElem_map]
+  exact src_lifetime_never_exceeds capped reqs[i] dfltS
+
+/-- … and is the demanded octet (outside C20-KF1 for the code as it is) -/
+theorem every_schedule_meets_spec (capped : Bool) (dfltS : Nat) (reqs : List (Option Nat)) (i : Nat)
+    (h : i < reqs.length) (hk : capped = false ∨ LTSpec.lifetimeMs reqs[i] dfltS < 1000000) :
+    LTSpec.IsLifetimeOctet (LTSpec.lifetimeMs reqs[i] dfltS)
+      ((emitAll capped dfltS reqs)[i]'(by simpa [emitAll] using h)).encode := by
+  simp only [emitAll, List.getElem_map]
+  exact src_lifetime_meets_spec capped reqs[i] dfltS hk
+
+/-- WHY `emitAll` may be a `map`: the constructors keep no state between calls.  A last-value memo in two shared
+variables (key stored before value) is NOT schedule-independent — machine-checked witness on the negative model
+`Memo`: after a 600 s request, thread A stores the key of its 1 s request and is pre-empted; thread B's complete call
+for 1 s hits the memo and writes 600 s -/
+theorem memo_race_witness :
+    Memo.run true ⟨none, ⟨0, 0⟩⟩ [.call 600000, .storeKey 1000, .call 1000, .storeVal 1000]
+      = [some ⟨6, 3⟩, none, some ⟨6, 3⟩, some ⟨1, 1⟩] ∧ (⟨6, 3⟩ : LT).millis = 600000 ∧ 1000 < (⟨6, 3⟩ : LT).millis := by
+  decide
+
+/-- sequentially (every call complete) the same memo is harmless: that is why only a schedule exposes it -/
+theorem memo_sequential_ok :
+    Memo.run true ⟨none, ⟨0, 0⟩⟩ [.call 600000, .call 1000, .call 1000, .call 600000]
+      = [some ⟨6, 3⟩, some ⟨1, 1⟩, some ⟨1, 1⟩, some ⟨6, 3⟩] := by
+  decide
+
+/-- REGENERATED FACT (ast pass over geonet/basic_header.py, `harness/gen_lt.py`): no function of the module writes
+class- or module-level state (no store to `cls.x` / `BasicHeader.x` / `LT.x` / `type(self).x`, no `global`, no
+mutating call on such a container) — the premise of `emitAll` -/
+theorem constructors_write_no_shared_state : Generated.LTSrc.sharedWrites = [] := by decide
+
+/-- REGENERATED FACT (ast pass over geonet/router.py): every Router method that builds a basic header builds exactly
+one (the security branches re-use it via `set_nh`) — the shape of `originate` -/
+theorem one_basic_header_per_operation :
+    Generated.LTSrc.headerBuilds.all (fun p => p.2 == 1) = true ∧ Generated.LTSrc.headerBuilds ≠ [] := by decide
+
+/-- REGENERATED FACT: no Router method hands a request's RAW `max_hop_limit` (where 0 and 1 mean "not specified") to a
+basic-header constructor as remaining hop limit -/
+theorem no_raw_request_hop_limit : Generated.LTSrc.rawHopLimitSites = [] := by decide
+
+example : originate true true .gbc 1 10 (some 1999) 60 = ⟨⟨2, ⟨39, 0⟩, 10⟩, 10, true⟩ ∧
+    originate true true .gac 0 10 none 60 = ⟨⟨2, ⟨6, 2⟩, 10⟩, 10, true⟩ ∧
+    originate true true .shb 7 10 (some 1000) 60 = ⟨⟨2, ⟨1, 1⟩, 1⟩, 1, true⟩ ∧
+    originate true true .guc 7 10 (some 1000) 60 = ⟨⟨1, ⟨1, 1⟩, 7⟩, 7, false⟩ := by decide
+example : emitAll true 60 [some 600000, some 1000, none] = [⟨6, 3⟩, ⟨1, 1⟩, ⟨6, 2⟩] := by decide
 
 end Props.C20
